@@ -1184,8 +1184,14 @@ class Engine(Executor):
         o.lt = o.lt.cat(self.iter_lt(st, args[0]))
         return [(st, sv_none())]
 
+    def _iterated_dict(self, o: DictObj) -> None:
+        if o.tail is not None and not o.distinct_keys:
+            self.note_assumption("iteration over a dict filled by a loop over a symbolic sequence: the inserted keys are "
+                                 "taken to be pairwise distinct (a repeated key would be listed once, with its last value)")
+
     def b_dict_keys(self, st, args, kwargs, fn):
         o = st.heap[fn.bound.oid]
+        self._iterated_dict(o)
         lt = L.LT.of([k for k, _ in o.entries])
         if o.tail is not None:
             lt = lt.cat(L.lt_map(o.tail, lambda p, b: L.LT([L.Unit(p.items[0])])))
@@ -1193,6 +1199,7 @@ class Engine(Executor):
 
     def b_dict_values(self, st, args, kwargs, fn):
         o = st.heap[fn.bound.oid]
+        self._iterated_dict(o)
         lt = L.LT.of([v for _, v in o.entries])
         if o.tail is not None:
             lt = lt.cat(L.lt_map(o.tail, lambda p, b: L.LT([L.Unit(p.items[1])])))
@@ -1200,6 +1207,7 @@ class Engine(Executor):
 
     def b_dict_items(self, st, args, kwargs, fn):
         o = st.heap[fn.bound.oid]
+        self._iterated_dict(o)
         lt = L.LT.of([Tup([k, v]) for k, v in o.entries])
         if o.tail is not None:
             lt = lt.cat(o.tail)
